@@ -1,10 +1,10 @@
 """C15 -- see DESIGN.md section 5.  Deductive targets are added below the bounded import."""
 PROP = "C15"
 LEVEL = 'other'
-EXPLANATION = ('Deductive: SectionOutput.add_content preserves the row-accounting invariant lines == sum over the content lines of max(1, ceil(visible length / width)) (recursive spec function over the content list, loop invariant).  Bounded: operation sequences on 1-3 sections replayed on a terminal emulator and compared with the stacked contents; plain fallback.')
+EXPLANATION = ('Deductive: SectionOutput.add_content preserves the row-accounting invariant lines == sum over the content lines of max(1, ceil(visible length / width)) (recursive spec function over the content list, loop invariant); SectionOutput.write and clear on an output without ANSI support (neither decorated nor forced) are verified to degrade to exactly one plain appended write of the undecorated text / to nothing, with no accounting change (a control sequence is a stream write of its own, so none is emitted).  Bounded: operation sequences on 1-3 sections replayed on a terminal emulator and compared with the stacked contents; plain fallback.')
 LEVEL_NOTE = ('assumes: floats as reals; remove_format is a function of formatter and text; the screen model (cursor-up / erase codes) is bounded only; partial clear(n) is a known finding')
 from . import io_contracts as ioc
-TARGETS = [ioc.SEC_ADD]
+TARGETS = [ioc.SEC_ADD, ioc.M_SEC + ':SectionOutput.write', ioc.M_SEC + ':SectionOutput.clear']
 LEMMAS = []
 try:
     from .C15_bounded import bounded, BOUNDED_RULE  # noqa: F401
